@@ -679,6 +679,10 @@ int main(int argc, char* argv[])
         blobs.push_back(parameter_blob(parameter_t::make_scalar_pair("rpair", 0.0, LT, 1e-4, LT, 0.9, LT, 1.0), p0));
         blobs.push_back(parameter_blob(parameter_t::make_enum("enum", feature_type::sclass), p0));
         blobs.push_back(parameter_blob(parameter_t::make_string("string", ""), p1));
+        // the parameter that was never initialised (no kind, no value, no domain): fresh and over a used destination
+        blobs.push_back(parameter_blob(parameter_t{}));
+        blobs.push_back(parameter_blob(parameter_t{}, p0));
+        blobs.push_back(parameter_blob(parameter_t{}, parameter_blob(parameter_t::make_integer("int", 0, LE, 7, LE, 10)).bytes));
     }
     const auto nsmall = blobs.size();
 
